@@ -162,6 +162,15 @@ def gen_lexeme(rng: random.Random, cls: str) -> str:
     return gen_value(rng, cls)
 
 
+def _same_scale(a: Any, b: Any) -> bool:
+    """A plain-notation decimal carries its scale: '2.50' and '2.5' are different lexemes and different
+    Decimal objects (as_tuple), and a ledger's precision is read off them.  Values with a positive
+    exponent have no plain-notation spelling of their own and are compared numerically only."""
+    if isinstance(a, D) and isinstance(b, D) and a.is_finite() and b.is_finite() and b.as_tuple().exponent <= 0:
+        return a.as_tuple() == b.as_tuple()
+    return True
+
+
 def check_token(tok: Any, cls: str, step: int, what: str) -> list[Violation]:
     V: list[Violation] = []
     T = type(tok)
@@ -171,7 +180,7 @@ def check_token(tok: Any, cls: str, step: int, what: str) -> list[Violation]:
         again = T.from_raw_text(raw)
         if again.raw_text != raw:
             V.append(Violation('C12', 'from_raw_text_verbatim', step, f'{what}: from_raw_text({raw!r}).raw_text = {again.raw_text!r}'))
-        elif again.value != val or type(again.value) != type(val):
+        elif again.value != val or type(again.value) != type(val) or not _same_scale(again.value, val):
             V.append(Violation('C12', 'value_raw_disagree', step, f'{what}: token says value {val!r} but its raw text {raw!r} means {again.value!r}'))
         elif cls == 'BlockComment' and again.indent != tok.indent:
             V.append(Violation('C12', 'value_raw_disagree', step, f'{what}: token says indent {tok.indent!r} but its raw text {raw!r} means {again.indent!r}'))
@@ -186,7 +195,7 @@ def check_token(tok: Any, cls: str, step: int, what: str) -> list[Violation]:
         return V
     if type(lexed) is not T or lexed.raw_text != raw:
         V.append(Violation('C12', 'relex_differs', step, f'{what}: raw text {raw!r} re-lexed as {lexed!r}'))
-    elif lexed.value != val:
+    elif lexed.value != val or not _same_scale(lexed.value, val):
         V.append(Violation('C12', 'relex_value', step, f'{what}: raw text {raw!r} re-lexes to value {lexed.value!r}, token says {val!r}'))
     return V
 
@@ -247,6 +256,12 @@ class TokSim(core.Engine):
                     pass
                 elif k == 'value':
                     op = {'op': 'value', 'v': enc(gen_value(rng, cls))}
+                    if cls == 'Number' and rng.random() < 0.15 and isinstance(tok.value, D) and tok.value.as_tuple().exponent <= 0 \
+                            and len(tok.value.as_tuple().digits) < 40:
+                        # the number the token holds now, written with one more decimal place
+                        sign, digits, exp = tok.value.as_tuple()
+                        op = {'op': 'value', 'v': enc(D((sign, digits + (0,), exp - 1)))}
+                        stats['value_same_number_other_scale'] += 1
                 elif k == 'raw':
                     op = {'op': 'raw', 'v': gen_lexeme(rng, cls)}
                 else:
